@@ -517,6 +517,9 @@ func vC02BRun(t *testing.T, c vC02BCase) (obs vC02BObs, ranks *vc02Ranks) {
 
 // vc02Guard runs a call of the code under test made by the harness goroutine; a panic is recorded, not propagated
 func vc02Guard(obs *vC02BObs, what string, f func() error) (err error) {
+	if vc02NoRecover {
+		return f()
+	}
 	defer func() {
 		if r := recover(); r != nil {
 			obs.Panics = append(obs.Panics, fmt.Sprintf("%s: %v", what, r))
